@@ -157,4 +157,17 @@ def scenarios():
                   _w(13, [_rq("mq", "text", loader="persist"),
                           _rq("mp", "text", loader="persist"),
                           _rq("mp", "text", loader="persist")])]})
+  # 8: directives that list several names: one error per name for the same
+  # line, and messages that enumerate names - under eight hash seeds
+  dsrc = ("x = 1\ndef f():\n  return 1\n"
+          "# pytype: disable=attribute-error,name-error,import-error,wrong-arg-types,bad-return-type\n"
+          "y = f()\n# pytype: features=zzz,yyy,xxx\n# pytype: pragma=aa,bb,cc\n"
+          "# pytype: disable=not-an-error,neither-this,nor-that\n"
+          "z = y.nope  # pytype: disable=attribute-error,name-error\n")
+  dp = {"md": {"module": "main", "src": dsrc, "deps": [], "exports": {}}}
+  out.append({"programs": dp, "scripted": "directive_name_lists_across_hash_seeds",
+              "workers": [_w0([_rq("md", "text")])] +
+                         [_w(h, [_rq("md", "text", kind=k)])
+                          for h, k in ((1, "api"), (2, "file"), (3, "api"), (5, "api"),
+                                       (6, "file"), (7, "api"))]})
   return out
